@@ -154,6 +154,10 @@ def obligations(tier, seed):
     rest = [x for x in tpl if x not in base]
     chosen = base + (rnd.sample(rest, len(rest) // 4) if tier == "quick" else rest)
     for k, st in chosen:
+        from checks.tpl import reentrant_slots as _rs
+
+        if _rs(st):
+            continue      # the library re-enters on the TEXT of a scalar subquery: its letters cannot carry case bits
         obs.append(CaseOb(k, st, "ansi", 3 if tier == "quick" else 4, seed))
     # quoting twins: every table-ish slot of the statement quoted, one family per dialect
     qsub = [x for x in chosen if "/plain" in x[0] or "cte" in x[0] or x[0].startswith(("merge/", "update/"))]
